@@ -2,6 +2,7 @@ package main
 
 import (
 	"bufio"
+	"context"
 	"encoding/json"
 	"flag"
 	"fmt"
@@ -166,9 +167,10 @@ func cmdCheck(args []string) int {
 
 	// generate
 	type job struct {
-		res  *FuncResult
-		obls []*Obligation
-		genS float64
+		res    *FuncResult
+		obls   []*Obligation
+		covers []*Obligation
+		genS   float64
 	}
 	jobs := make([]*job, len(keys))
 	var wg sync.WaitGroup
@@ -185,6 +187,12 @@ func cmdCheck(args []string) int {
 			r := verifyFunction(P, S, k)
 			j := &job{res: r, genS: time.Since(t1).Seconds()}
 			for _, o := range r.Obls {
+				if o.Kind == "cover" {
+					if *tier == "thorough" {
+						j.covers = append(j.covers, o)
+					}
+					continue
+				}
 				if oblServes(o, prop) {
 					if *tier != "thorough" && hasTag(o.Tags, "slow") {
 						continue // clauses tagged slow are decided in the thorough tier only (longer solver budget)
@@ -258,6 +266,40 @@ func cmdCheck(args []string) int {
 		}(i, o)
 	}
 	wg2.Wait()
+	// cover checks (thorough): a return whose guard is refuted by the assumptions is unreachable; reported, since it
+	// is either dead code or a sign of contradictory contracts
+	var unreachable []string
+	coverN := 0
+	{
+		var wg3 sync.WaitGroup
+		var mu3 sync.Mutex
+		n := 0
+		for _, j := range jobs {
+			for _, o := range j.covers {
+				wg3.Add(1)
+				sem2 <- struct{}{}
+				n++
+				coverN++
+				go func(j *job, o *Obligation, n int) {
+					defer wg3.Done()
+					defer func() { <-sem2 }()
+					c := j.res.Ctx
+					file := filepath.Join(dir, fmt.Sprintf("cover%05d.smt2", n))
+					os.WriteFile(file, []byte(c.query(o, true, false)), 0o644)
+					if st, _ := runSolver(context.Background(), solvers[0], file, 10, seed); st == "unsat" {
+						mu3.Lock()
+						unreachable = append(unreachable, o.Name+" "+o.Where)
+						mu3.Unlock()
+					}
+				}(j, o, n)
+			}
+		}
+		wg3.Wait()
+		sort.Strings(unreachable)
+		for _, u := range unreachable {
+			fmt.Printf("NOTE unreachable-return %s\n", u)
+		}
+	}
 	// lemmas
 	var lemmaObls []*Obligation
 	for li, l := range lemmas {
@@ -372,19 +414,21 @@ func cmdCheck(args []string) int {
 		"seed":        seed,
 		"level":       "proof",
 		"coverage": map[string]any{
-			"obligations":              total - len(knownHit),
-			"discharged":               discharged,
+			"obligations":                          total - len(knownHit),
+			"discharged":                           discharged,
 			"obligations_including_known_findings": total,
-			"known_findings_hit":       knownHit,
-			"checker_cmd":              fmt.Sprintf("/verif/bin/govc check -tier %s %s  (VC generation over go/ssa of %s, discharged by z3-new/cvc5/z3)", *tier, prop, repo),
-			"trusted_base":             tb,
-			"functions_under_contract": fev,
-			"lemmas":                   len(lemmas),
-			"solver_wins":              solverWins,
-			"solver_time_s":            solverTime,
-			"load_ssa_s":               loadS,
-			"samples":                  samples,
-			"contract_files":           S.Files,
+			"known_findings_hit":                   knownHit,
+			"checker_cmd":                          fmt.Sprintf("/verif/bin/govc check -tier %s %s  (VC generation over go/ssa of %s, discharged by z3-new/cvc5/z3)", *tier, prop, repo),
+			"trusted_base":                         tb,
+			"functions_under_contract":             fev,
+			"lemmas":                               len(lemmas),
+			"solver_wins":                          solverWins,
+			"solver_time_s":                        solverTime,
+			"load_ssa_s":                           loadS,
+			"samples":                              samples,
+			"contract_files":                       S.Files,
+			"cover_checks":                         coverN,
+			"unreachable_returns":                  unreachable,
 		},
 		"assumptions": assumptions,
 		"wall_s":      time.Since(t0).Seconds(),
